@@ -3,6 +3,7 @@ import Driver.C07
 import Driver.C08
 import Driver.Fields
 import Driver.Lines
+import Driver.FilesH
 open Lean Driver
 
 def dispatch (j : Json) : R Json := do
@@ -16,6 +17,14 @@ def dispatch (j : Json) : R Json := do
   | "c01" => Driver.Lines.handleC01 j
   | "c09" => Driver.Lines.handleC09 j
   | "c11" => Driver.Lines.handleC11 j
+  | "c04" => Driver.FilesH.handleC04 j
+  | "c05" => Driver.FilesH.handleC05 j
+  | "c05skip" => Driver.FilesH.handleC05Skip j
+  | "c06" => Driver.FilesH.handleC06 j
+  | "c10" => Driver.FilesH.handleC10 j
+  | "c12" => Driver.FilesH.handleC12 j
+  | "c13" => Driver.FilesH.handleC13 j
+  | "c18" => Driver.FilesH.handleC18 j
   | _ => throw s!"unknown op {op}"
 
 partial def loop (inp out : IO.FS.Stream) : IO Unit := do
